@@ -183,15 +183,26 @@ func vpH_C14_retry() {
 		return
 	}
 	batch := []*mocrelay.Event{{ID: "x"}}
+	// how many attempts are made is the implementation's choice (three at present): the
+	// failure pattern covers up to 8 attempts, more than that cannot be judged here
+	const maxAttempts = 8
 	calls := 0
-	fails := [3]bool{vpChoice("fail0", 2) == 1, vpChoice("fail1", 2) == 1, vpChoice("fail2", 2) == 1}
+	succeeded := false
+	var fails [maxAttempts]bool
+	for i := range fails {
+		fails[i] = vpChoice("fail", 2) == 1
+	}
 	vpStub("github.com/high-moctane/mocrelay/handler/sqlite.insertEvents", func(ctx context.Context, db *sql.DB, seed uint32, events []*mocrelay.Event) error {
 		vpAssert(len(events) == 1 && events[0] == batch[0], "C14.retry-offers-the-same-batch")
+		vpAssert(!succeeded, "C14.retry-stops-at-first-success")
 		calls++
-		vpAssert(calls <= 3, "C14.retry-at-most-three-times")
+		if calls > maxAttempts {
+			vpUnsupported("more than 8 insertion attempts for one batch: outside the failure patterns of this harness")
+		}
 		if fails[calls-1] {
 			return vpErrInjected
 		}
+		succeeded = true
 		return nil
 	})
 	vpStub("time.After", func(d time.Duration) <-chan time.Time {
@@ -201,13 +212,8 @@ func vpH_C14_retry() {
 	})
 	h := &simpleSQLiteHandler{}
 	err := h.bulkInsertWithRetry(context.Background(), batch)
-	want := 1
-	for want < 3 && fails[want-1] {
-		want++
-	}
-	allFail := fails[0] && fails[1] && fails[2]
-	vpAssert(calls == want, "C14.retry-stops-at-first-success")
-	vpAssert((err != nil) == allFail, "C14.retry-error-iff-all-attempts-failed")
+	vpAssert(calls >= 1, "C14.retry-at-least-one-attempt")
+	vpAssert((err != nil) == !succeeded, "C14.retry-error-iff-no-attempt-succeeded")
 	vpReach("end")
 }
 
